@@ -159,4 +159,7 @@ VARIANTS += [
     dict(id="c04-rdb-claim-test-in-earlier-session", prop="C04", file=RDB, expect="R04.1",
          old="        try:\n            with _create_scoped_session(self.scoped_session) as session:\n                trial = models.TrialModel.find_or_raise_by_id(trial_id, session, for_update=True)\n                self.check_trial_is_updatable(trial_id, trial.state)\n\n                if state == TrialState.RUNNING and trial.state != TrialState.WAITING:\n                    return False\n",
          new="        if state == TrialState.RUNNING:\n            with _create_scoped_session(self.scoped_session) as session:\n                if models.TrialModel.find_or_raise_by_id(trial_id, session).state != TrialState.WAITING:\n                    return False\n        try:\n            with _create_scoped_session(self.scoped_session) as session:\n                trial = models.TrialModel.find_or_raise_by_id(trial_id, session, for_update=True)\n                self.check_trial_is_updatable(trial_id, trial.state)\n"),
+    dict(id="c04-watermark-from-own-finished-trial", prop="C04", file="optuna/storages/_cached_storage.py", expect="R04.7",
+         old="            if not frozen_trial.state.is_finished():\n                study.unfinished_trial_ids.add(trial_id)\n",
+         new="            if frozen_trial.state.is_finished():\n                study.last_finished_trial_id = max(study.last_finished_trial_id, trial_id)\n            else:\n                study.unfinished_trial_ids.add(trial_id)\n"),
 ]
